@@ -3,7 +3,7 @@ import Chewing.Model.Learn
 import Chewing.Driver.Util
 /-! `learn …` records: frequency estimate, auto-learning on commit, default conversion of a learned range (C08). -/
 namespace Chewing.Driver
-open Chewing
+open Chewing Chewing.Learn
 
 namespace LearnP
 
